@@ -284,7 +284,8 @@ fn run(prop: &str, tier_s: &str) -> i32 {
         }
     }
     // crashes count as violations only for the totality property; elsewhere they are noted
-    let crash_is_violation = prop == "C20";
+    // termination / no stack overflow is part of the statements of C11 (left recursion), C12 (depth) and C20
+    let crash_is_violation = matches!(prop, "C11" | "C12" | "C20");
     if crash_is_violation {
         violations.extend(crashes.iter().cloned());
     }
@@ -408,6 +409,7 @@ fn replay(path: &str) -> i32 {
     let res = match v["engine"].as_str().unwrap_or("") {
         "pratt" => eng_pratt::replay(&v),
         "text" => eng_text::replay(&v),
+        "leftrec" | "rec" | "rec-life" | "rec-depth" | "rec-define" => eng_rec::replay(&v),
         _ => cvh::replay::replay(&v),
     };
     match res {
